@@ -236,6 +236,45 @@ fn check_case(seed: u64, shard: u64, index: u64, out: &mut ShardOut) {
             }
         }
     }
+    // (1b) the path-based entry points (Document::save / IncrementalDocument::save): a healthy file receives the
+    // golden bytes; a device that accepts no byte (/dev/full: every write fails with ENOSPC, also the last buffered
+    // one that is only flushed when the writer is finished) must make save return an error
+    {
+        let dir = std::env::var("VERIF_OUT_DIR").or_else(|_| std::env::var("VERIF_DIR")).map(std::path::PathBuf::from).unwrap_or_else(|_| std::env::temp_dir()).join("work").join("C19");
+        let _ = std::fs::create_dir_all(&dir);
+        let path = dir.join(format!("save-{}-{}-{}-{}.pdf", std::process::id(), seed, shard, index));
+        let mut s = case.subject.clone();
+        out.evaluations += 1;
+        out.count("path_saves_to_a_healthy_file");
+        let res = crate::props::catch(|| match &mut s {
+            Subject::Plain(d) => d.save(&path).map(|_| ()),
+            Subject::Incr(d) => d.save(&path).map(|_| ()),
+        });
+        match res {
+            Err(p) => out.finding(mk_finding("path-save-panic", format!("save(path) panicked: {}", p), cs, incremental, case.xref_stream, Value::Null)),
+            Ok(Err(e)) => out.finding(mk_finding("path-save-error", format!("save(path) to a healthy file failed: {}", e), cs, incremental, case.xref_stream, Value::Null)),
+            Ok(Ok(())) => {
+                if std::fs::read(&path).ok().as_deref() != Some(&golden[..]) {
+                    out.finding(mk_finding("path-save-bytes", "save(path) wrote other bytes than save_to".into(), cs, incremental, case.xref_stream, Value::Null));
+                }
+            }
+        }
+        let _ = std::fs::remove_file(&path);
+        if std::path::Path::new("/dev/full").exists() {
+            let mut s = case.subject.clone();
+            out.evaluations += 1;
+            out.count("path_saves_to_a_full_device");
+            let res = crate::props::catch(|| match &mut s {
+                Subject::Plain(d) => d.save("/dev/full").map(|_| ()),
+                Subject::Incr(d) => d.save("/dev/full").map(|_| ()),
+            });
+            match res {
+                Err(p) => out.finding(mk_finding("path-save-panic", format!("save(/dev/full) panicked: {}", p), cs, incremental, case.xref_stream, Value::Null)),
+                Ok(Ok(())) => out.finding(mk_finding("path-save-success-on-failing-device", format!("save to a device that accepts no byte returned Ok ({} bytes of output)", golden.len()), cs, incremental, case.xref_stream, Value::Null)),
+                Ok(Err(_)) => {}
+            }
+        }
+    }
     // (2)+(3) every failure position x kind
     let positions: Vec<usize> = (0..golden.len()).collect();
     for &p in &positions {
@@ -304,7 +343,7 @@ pub fn run(cfg: &RunCfg) -> (PropMeta, ShardOut, Map<String, Value>) {
     });
     let meta = PropMeta {
         level: "fault_enumeration",
-        rule: "per generated document (plain save and incremental save after random edits, xref table and xref stream): golden bytes from a healthy sink; 5 chunking/Interrupted policies must reproduce the golden bytes; then EVERY byte position p of the golden output x {persistent hard error, Ok(0), single failing call} is injected: save must return Err, delivered bytes must equal golden[..p], and re-saving the same value to a healthy sink must load to the model content. distinct = distinct golden files + distinct (save kind, write-call length) sites observed.".into(),
+        rule: "per generated document (plain save and incremental save after random edits, xref table and xref stream): golden bytes from a healthy sink; 5 chunking/Interrupted policies must reproduce the golden bytes; the path-based save must write the golden bytes to a healthy file and return an error on /dev/full; then EVERY byte position p of the golden output x {persistent hard error, Ok(0), single failing call} is injected: save must return Err, delivered bytes must equal golden[..p], and re-saving the same value to a healthy sink must load to the model content. distinct = distinct golden files + distinct (save kind, write-call length) sites observed.".into(),
         assumptions: vec![
             "the sink reports errors truthfully (an error means none of the offered bytes of that call were accepted)".into(),
             "content after re-save is checked through lopdf's own loader against the model (C03's strict reader covers structural validity separately); for files > 1500 bytes the content check runs on every 7th position and the last 64".into(),
